@@ -131,6 +131,21 @@ Definition may_contain_key (f : bytes) (key : bytes) : option bool := may_contai
    [bitsPerKey] the result of BloomBitsPerKey. *)
 Definition key_hashes (ikeys : list bytes) : list N := map (fun ik => hash (parse_key ik)) ikeys.
 
+(* The two entry points of the builder: Builder.Add(key, ..) = addInternal(key, .., isStale=false),
+   Builder.AddStaleKey(key, ..) = addInternal(key, .., isStale=true) (compaction adds kept
+   tombstones, expired entries and versions below a discard-earlier marker this way).  Both reach
+   the same addHelper, whose first statement appends Hash(ParseKey(key)); the flag only feeds the
+   stale-size counter.  [add_helper] carries the flag exactly to make that visible: the hash list
+   (and hence the filter) does not depend on it (BloomProofs.builder_hashes_flag_irrelevant). *)
+Definition add_helper (hs : list N) (is_stale : bool) (ik : bytes) : list N :=
+  hs ++ [hash (parse_key ik)].
+
+Definition builder_hashes (adds : list (bool * bytes)) : list N :=
+  fold_left (fun hs a => add_helper hs (fst a) (snd a)) adds [].
+
+Definition build_bloom_adds (adds : list (bool * bytes)) (fp_pos : bool) (bitsPerKey : Z) : option bytes :=
+  if fp_pos then new_filter (builder_hashes adds) bitsPerKey else Some [].
+
 Definition build_bloom (ikeys : list bytes) (fp_pos : bool) (bitsPerKey : Z) : option bytes :=
   if fp_pos then new_filter (key_hashes ikeys) bitsPerKey else Some [].
 
